@@ -18,7 +18,15 @@ class C17(core.Check):
             'category index not seen at fit time, an all-missing column, a frame without categorical columns, an empty '
             'frame) x labels of the transformed frame (kept, None, all 0, all 1, only {0,1}, larger than any class, float, '
             'NaN) x history (fit->transform*, unfitted, pickle/deepcopy state_dict round trip into a fresh object); '
-            'non-trivial = fitted with >= 1 categorical column and >= 1 successful transform of >= 1 row; distinct = case hash')
+            'non-trivial = fitted with >= 1 categorical column and >= 1 successful transform of >= 1 row; distinct = case hash. '
+            'Hardening families: every returned frame is read right after its call AND after the last call of the history; '
+            'frames of the same shape as an earlier one (twin mini-batches), the same rows again, the training frame object '
+            'itself, frames obtained by indexing the training frame; histories refit (an earlier fit on another frame / task '
+            'type / class count), transform-before-fit then fit, in-memory state_dict sharing between two objects used '
+            'alternately; int32 categorical indices, label dtypes bool / uint8 / int16 / int32 / float16 / float64; '
+            'numerical payloads -1, 0.5, -0.0, 2^24(+2), +-3e38, 1e-38, +-inf; counts > 2^24 and = 0; names label / '
+            'label_prev / w / W / "-1" / "nan"; 2% scale cases from the stress ladder (fit rows, transform rows, categorical '
+            'columns, numerical columns, categories per column, classes, number of transform calls)')
     partial_notes = (
         '"the input frame is never modified" is checked on the real objects (values, names, dtypes and y of the input '
         'frame re-read after every call); the functional Lean model cannot express mutation',
@@ -30,16 +38,27 @@ class C17(core.Check):
         'are distinct from each other and from the numerical column names')
 
     def generate(self, rng, n, tier):
+        budget = {0: 1.0e6, 1: 6.0e6, 2: 1.0e7}[self.level]      # volume (cells) the scale cases of one run may take
         for _ in range(n):
-            yield cn.gen_case(rng)
+            if rng.random() < 0.02:
+                case = cn.gen_scale_case(rng, self.level)
+                if case['volume'] <= budget:
+                    budget -= case['volume']
+                    yield case
+                    continue
+            yield cn.gen_case(rng, self.level)
 
     def real(self, case):
         return cn.run_real(case)
 
     def model_requests(self, case):
+        if case.get('oracle_only'):
+            return []
         return [cn.model_request(case)]
 
     def model_outcome(self, case, replies):
+        if case.get('oracle_only'):
+            return core.SKIP_MODEL
         return cn.model_outcome(case, replies[0])
 
     def equal(self, a, b):
@@ -59,6 +78,11 @@ class C17(core.Check):
         for fr, out in zip(frames, real['transforms']):
             if out == 'raises-and-mutated' or (isinstance(out, dict) and not out['pure']):
                 return viol('transform/mutates-input', f"transform modified its input frame ({fr['tag']})")
+            if isinstance(out, dict) and out.get('stable') is False:
+                return viol('transform/result-changed-by-later-call', f"the frame returned for ({fr['tag']}) reads "
+                            'differently after later calls on the same transform: the result is not a new frame')
+        if real.get('pre_call', 'raises') != 'raises':
+            return viol('unfitted/no-raise', 'transform before fit did not raise', 'raises', real['pre_call'])
         if case['scenario'] == 'unfitted':
             for fr, out in zip(frames, real['transforms']):
                 if out != 'raises':
@@ -99,8 +123,9 @@ class C17(core.Check):
             return viol('names/stats-keys', 'transformed statistics keys are not [numerical..., generated...]', exp_names,
                         st['statsKeys'])
         # an independent object for the metamorphic relations
+        cat_dt = case.get('cat_dt', 'int64')
         t = CatToNumTransform()
-        t.fit(cn.make_tf(case['fit'], num_names, cat_names), cn.make_col_stats(case))
+        t.fit(cn.make_tf(case['fit'], num_names, cat_names, cat_dt=cat_dt), cn.make_col_stats(case))
         for name in exp_new:
             s = t.transformed_stats[name]
             if not {StatType.MEAN, StatType.STD, StatType.QUANTILES} <= set(s.keys()):
@@ -129,19 +154,23 @@ class C17(core.Check):
             for y2 in (None, {'i': [0] * len(fr['num'])}, {'i': [K + 1] * len(fr['num'])},
                        {'f': [0.5] * len(fr['num'])}, {'i': list(range(len(fr['num'])))}):
                 try:
-                    o2 = cn.out_repr(t(cn.make_tf(dict(fr, y=y2), num_names, cat_names)))
+                    o2 = cn.out_repr(t(cn.make_tf(dict(fr, y=y2), num_names, cat_names, cat_dt=cat_dt)))
                 except Exception as e:
                     return viol('labels/raises', f'transform raised for labels {y2}: {type(e).__name__}', out['rows'], 'raises')
                 if o2['rows'] != out['rows'] or o2['numNames'] != out['numNames']:
                     return viol('labels/differs', f'result depends on the labels of the transformed frame ({y2})',
                                 out['rows'], o2['rows'])
             # row-wise: every single row that is itself in the domain gives the same row (bit-exact)
+            m = len(fr['num'])
+            probe = set(range(m)) if m <= 12 else {0, 1, m // 3, m // 2, m - 2, m - 1} | {(7 * k * k + 3) % m for k in range(6)}
             for i, (nr, cr) in enumerate(zip(fr['num'], fr['cat'])):
+                if i not in probe:
+                    continue
                 single = {'num': [nr], 'cat': [cr], 'y': None}
                 if not cn.in_domain(case, single):
                     continue
                 try:
-                    o1 = cn.out_repr(t(cn.make_tf(single, num_names, cat_names)))
+                    o1 = cn.out_repr(t(cn.make_tf(single, num_names, cat_names, cat_dt=cat_dt)))
                 except Exception as e:
                     return viol('rowwise/raises', f'single row raised: {type(e).__name__}', out['rows'][i], 'raises')
                 if o1['rows'] != [out['rows'][i]]:
@@ -158,8 +187,54 @@ class C17(core.Check):
         return None
 
     def classify(self, case, real):
-        labs = [f"task:{case['task']}", f"scenario:{case['scenario']}", f"ncat:{len(case['cat_names'])}",
-                f"nnum:{len(case['num_names'])}", f"fitrows:{min(len(case['fit']['num']), 10)}"]
+        labs = [f"task:{case['task']}", f"scenario:{case['scenario']}", f"ncat:{min(len(case['cat_names']), 4)}",
+                f"nnum:{min(len(case['num_names']), 3)}", f"fitrows:{min(len(case['fit']['num']), 10)}"]
+        if 'scale' in case:
+            labs.append(f"scale:{case['scale']}")
+
+        def size(what, v):
+            for th in (65537, 16385, 4097, 1025, 257, 17):
+                if v >= th:
+                    labs.append(f'scale:{what}:{th}+')
+                    return
+        size('fit-rows', len(case['fit']['num']))
+        size('categorical-columns', len(case['cat_names']))
+        size('numerical-columns', len(case['num_names']))
+        size('classes', case['K'] if case['task'] == 'multi' else 2)
+        size('categories', max([len(v) for v in case['counts'].values()], default=0))
+        size('calls', len(case['transforms']))
+        size('transform-rows', max([len(fr['num']) for fr in case['transforms']], default=0))
+        if case.get('oracle_only'):
+            labs.append('oracle-only')
+        if case.get('cat_dt'):
+            labs.append(f"dtype:categorical:{case['cat_dt']}")
+        yfit = case['fit']['y']
+        if yfit and yfit.get('dt'):
+            labs.append(f"dtype:fit-labels:{yfit['dt']}")
+        if any(c > 2 ** 24 for v in case['counts'].values() for c in v):
+            labs.append('value:count>2^24')
+        if any(c == 0 for v in case['counts'].values() for c in v):
+            labs.append('value:count=0')
+        if any(isinstance(x, str) for fr in [case['fit']] + case['transforms'] for row in fr['num'] for x in row):
+            labs.append('value:numerical-inf')
+        if any(isinstance(x, float) and abs(x) >= 2 ** 24 for fr in [case['fit']] + case['transforms'] for row in fr['num'] for x in row):
+            labs.append('value:numerical-edge-magnitude')
+        if not case['num_names'] and case['cat_names']:
+            labs.append('schema:categorical-only')
+        rows_seen = {}
+        for k, fr in enumerate(case['transforms']):
+            if fr.get('alias'):
+                labs.append(f"alias:{fr['alias']}")
+            if fr['y'] and fr['y'].get('dt'):
+                labs.append(f"dtype:labels:{fr['y']['dt']}")
+            m = len(fr['num'])
+            if m and m in rows_seen and not fr.get('drop_cat'):
+                labs.append('history:same-shape-as-earlier-call')
+            rows_seen[m] = k
+        if len(case['transforms']) > 1:
+            labs.append('alias:results-read-after-later-calls')
+        if case.get('prefit') is not None:
+            labs.append('history:fitted-before-on-another-frame')
         fit = real['fit']
         labs.append('fit:' + ('none' if fit is None else fit if fit == 'raises' else fit['state']))
         if isinstance(fit, dict) and 'K' in fit:
@@ -198,7 +273,47 @@ class C17(core.Check):
             report['violations'].append(core.Violation('transform/raises/witness', 'the F9 witness (multiclass fit, rows with '
                                                        'labels <= 1 / y=None) raises again', case, 'frames', real['transforms']))
         report['extra']['old_branch_witness'] = {'model_old_raises': ok, 'real_code_ok': ok_real}
+        report['extra']['observed_outside_generated_domain'] = self.outside_domain()
         self.dataset_end_to_end(rng, 150 if tier == 'thorough' else 40, report)
+
+    def outside_domain(self):
+        """inputs the hardening round tried and judged outside the property's stated domain; what the live code does
+        with them is recorded (not judged)"""
+        import torch
+        from torch_frame import TensorFrame, stype
+        from torch_frame.data.stats import StatType
+        from torch_frame.transforms import CatToNumTransform
+        cs = {'a': {StatType.COUNT: (['x', 'y'], [3, 1])}, 'n': {StatType.MEAN: 0.0}}
+
+        def frame(cat_dt=torch.int64, num_dt=torch.float32, y=None):
+            return TensorFrame({stype.categorical: torch.tensor([[0], [1], [-1], [0]], dtype=cat_dt),
+                                stype.numerical: torch.tensor([[0.1], [16777217.0], [1e39], [2.0]], dtype=num_dt)},
+                               {stype.categorical: ['a'], stype.numerical: ['n']}, y)
+
+        def attempt(f):
+            try:
+                return f()
+            except Exception as e:  # noqa
+                return f'raises:{type(e).__name__}'
+
+        def f64():
+            t = CatToNumTransform()
+            t.fit(frame(num_dt=torch.float64, y=torch.tensor([0., 1., 1., 0.])), cs)
+            out = t(frame(num_dt=torch.float64)).feat_dict[stype.numerical]
+            return {'dtype': str(out.dtype), 'column n': [repr(v) for v in out[:, 0].tolist()]}
+
+        def fit_with(cat_dt=torch.int64, y=None):
+            t = CatToNumTransform()
+            t.fit(frame(cat_dt=cat_dt, y=y), cs)
+            return 'fitted'
+        return {
+            'float64 numerical tensor [0.1, 2^24+1, 1e39, 2.0] (a materialized frame is float32; the result is cast to '
+            'float32, so such payloads are rounded / overflow)': attempt(f64),
+            'multiclass labels in an int32 tensor at fit time (F.one_hot needs int64)':
+                attempt(lambda: fit_with(y=torch.tensor([0, 1, 2, 1], dtype=torch.int32))),
+            'categorical indices in an int16 tensor (torch index dtype)':
+                attempt(lambda: fit_with(cat_dt=torch.int16, y=torch.tensor([0., 1., 1., 0.]))),
+        }
 
     def dataset_end_to_end(self, rng, n_cases, report):
         """the usual pipeline (DataFrame -> Dataset.materialize() -> fit on the materialized frame with the dataset's
